@@ -213,8 +213,18 @@ class League:
     def __init__(self, cfg, model=None):
         self.cfg = cfg
         self.model = model if model is not None else build_model(cfg)
+        # the model object the SERVICE uses to build rating objects (join, re-seed, restore).
+        # By default the same object; the C14/C15 driver gives the service a model object of
+        # its own, so that the model under test only ever sees rate/predict calls and its
+        # before/after snapshots cannot be disturbed by rating() (which may legitimately
+        # keep a counter on the model)
+        self.factory = self.model
         self.players = {}
         self.store = {}
+        self.labels = {}  # durable: the name each player was given (the library sees this one)
+        self.rosters = {}  # volatile: long-lived team LIST objects, reused whenever the same
+        #                    line-up plays again (a service keeps its rosters around)
+        self.reuse_rosters = True
         self.dom = Domain(cfg)
         self.reseeds = 0
 
@@ -228,13 +238,18 @@ class League:
         return dec(mu), dec(sigma)
 
     # -- ops
-    def join(self, name, mu=None, sigma=None, has_mu=False, has_sigma=False):
-        kw = {"name": name}
+    def label(self, name):
+        return self.labels.get(name, name)
+
+    def join(self, name, mu=None, sigma=None, has_mu=False, has_sigma=False, label=None):
+        if label is not None:
+            self.labels[name] = label
+        kw = {"name": self.label(name)}
         if has_mu:
             kw["mu"] = mu
         if has_sigma:
             kw["sigma"] = sigma
-        p = self.model.rating(**kw)
+        p = self.factory.rating(**kw)
         self.players[name] = p
         self.save(name)
         return p
@@ -245,7 +260,31 @@ class League:
                 self.join(n)
 
     def teams_of(self, team_names):
-        return [[self.players[n] for n in t] for t in team_names]
+        """The rating objects of a match.  The inner lists are the service's long-lived roster
+        objects: the same list object is handed to the library every time the same line-up
+        plays, refreshed in place with the players' current objects."""
+        if not self.reuse_rosters:
+            return [[self.players[n] for n in t] for t in team_names]
+        out = []
+        for t in team_names:
+            key = tuple(t)
+            lst = self.rosters.get(key)
+            if lst is None:
+                lst = self.rosters[key] = []
+                if len(self.rosters) > 256:
+                    self.rosters.pop(next(iter(self.rosters)))
+            lst[:] = [self.players[n] for n in t]
+            out.append(lst)
+        return out
+
+    def forget_rosters(self, names=None):
+        """A restart: the roster lists die with the objects they held."""
+        if names is None:
+            self.rosters.clear()
+        else:
+            ns = set(names)
+            for key in [k for k in self.rosters if ns & set(k)]:
+                del self.rosters[key]
 
     def reseed_out_of_domain(self, team_names, tau_zero, limit=False):
         """Executor-side, deterministic: a player that left D is clamped back before use.
@@ -259,7 +298,7 @@ class League:
                 p = self.players[n]
                 if not self.dom.inside(p.mu, p.sigma, allow_zero_sigma=not tau_zero):
                     mu, sigma = self.dom.clamp(p.mu, p.sigma)
-                    p2 = self.model.rating(mu=mu, sigma=sigma, name=n)
+                    p2 = self.factory.rating(mu=mu, sigma=sigma, name=self.label(n))
                     self.players[n] = p2
                     self.save(n)
                     self.reseeds += 1
@@ -364,6 +403,12 @@ def encode_outcome(rng, place):
     return {"ranks": enc(ranks)}
 
 
+ODD_NAMES = [
+    "Zoe\u0308", "A\u030angstro\u0308m", "\u212b", "\u1100\u1161\u11a8", "\ufb01nal", "  padded  ", "O'Brien; DROP TABLE", "x" * 300,
+    "\u00e9clair", "\U0001f3b2 dice", "tab\tname", "0", "None", "\u0130stanbul", "stra\u00dfe", "\u01c4",
+]
+
+
 def gen_population(rng, cfg, n, style):
     """Initial players: list of NEW ops."""
     d = Domain(cfg)
@@ -372,6 +417,9 @@ def gen_population(rng, cfg, n, style):
     for i in range(n):
         name = "p%d" % i
         op = {"op": "NEW", "name": name}
+        if rng.random() < 0.25:
+            # the name the library gets: not every player is called p<i>
+            op["label"] = rng.choice(ODD_NAMES) + (" #%d" % i if rng.random() < 0.5 else "")
         r = rng.random()
         if style == "default" or (style == "mixed" and r < 0.4):
             pass
